@@ -56,6 +56,19 @@ def mc_part(pid, tier):
         if r.violation != "invariant " + w:
             raise C.ToolFailure(f"vacuity: witness {w} is not reachable in the exhaustive model ({r.violation})")
         wit[w] = "reached at depth %d" % r.depth
+    if pid in ("C06", "C09"):
+        # the local date goes back once (another time zone) while time goes on - MC_Rotation!MCZone
+        zcfg = f"MC_Rot_{pid}_zone.cfg"
+        z = C.tlc_must_pass(C.run_tlc("MC_Rotation", zcfg, coverage=True, timeout=1800, xmx="16g"), zcfg)
+        if z.violation:
+            raise C.ToolFailure(f"the rotation model itself violates {z.violation} under {zcfg}:\n{z.out[-3000:]}")
+        C.check_coverage(z, ["MCZone", "MCSend", "MCSys"], zcfg)
+        wit["zone_config"] = f"{zcfg}: {z.distinct} distinct states, no violation"
+        for w, inv in (("W_NeverZonedRotation", "W_NeverZonedRotation"), ("W_ZoneTie", "SurvivorsAreRecentSuffix")):
+            r = C.run_tlc("MC_Rotation", f"MC_Rot_{w}.cfg", timeout=600, xmx="8g")
+            if r.error or r.violation != "invariant " + inv:
+                raise C.ToolFailure(f"witness run {w}: expected a violation of {inv}, got {r.violation} {r.error}")
+            wit[w] = "reached at depth %d" % r.depth
     return mc, cfg, wit
 
 
@@ -79,6 +92,7 @@ def campaign(pid, tier, seed):
     elif pid == "C06":
         add(R.gen_history, 110 if q else 2200, "C06")
         add(R.gen_index_crossing, 12 if q else 120)
+        add(R.gen_zone_history, 10 if q else 150, "C06")
         if not q:
             add(R.gen_index_crossing, 6, 103)
     elif pid == "C07":
@@ -92,6 +106,7 @@ def campaign(pid, tier, seed):
     elif pid == "C09":
         add(R.gen_history, 130 if q else 2500, "C09")
         add(R.gen_index_crossing, 6 if q else 60)
+        add(R.gen_zone_history, 6 if q else 100, "C09")
     elif pid == "C10":
         add(R.gen_history, 6 if q else 40, "C10", 8)
         add(R.gen_history, 4 if q else 30, "C08", 7)
